@@ -51,6 +51,24 @@ CMPOPS = {ast.Gt: "gt", ast.GtE: "ge", ast.Lt: "lt", ast.LtE: "le", ast.Eq: "eq"
 # ----------------------------------------------------------------------------- encoder: Python ast -> wire
 
 
+_entry_facts = None
+
+
+def entry_facts_of_repo():
+    global _entry_facts
+    if _entry_facts is None:
+        import ast as _ast
+
+        from translate import c06 as T6
+        from vlib.framework import REPO
+
+        try:
+            _entry_facts = T6.entry_facts(_ast.parse((REPO / "src" / "mxlpy" / "meta" / "source_tools.py").read_text()))
+        except Exception:  # noqa: BLE001  outside the recognised shape: the obligation is broken anyway; encode as repaired
+            _entry_facts = (True, True)
+    return _entry_facts
+
+
 def find_def(tree, fn):
     """the `def` a function object was made from: module-level or nested (factories, decorators), by name and first line"""
     import inspect
@@ -143,6 +161,13 @@ class Encoder:
             self.features.add("wrapped")
         if closure_bad:
             self.features.add("closure_non_number")
+        # what the CURRENT source does with them (facts read by translate/c06.py): without the repairs a wrapped
+        # function is translated from the wrapped function's body and free variables fall back to module constants
+        wr_refused, cl_cells = entry_facts_of_repo()
+        if not wr_refused:
+            wrapped = False
+        if not cl_cells:
+            closure_items, closure_bad = [], False
         if a.posonlyargs:
             self.features.add("sig_posonly")
         if other:
